@@ -138,6 +138,14 @@ def Fn.div (t : Fn α) (c : α) : Except Err (Fn α) :=
   | .sqL2 y A w s => .ok (.sqL2 y A w (s / c))
   | _ => .error .type
 
+/-- `Loss.set_scale(c)` (in-place update of the scale attribute; other functionals have no such method) -/
+def Fn.setScale (t : Fn α) (c : α) : Except Err (Fn α) :=
+  match t with
+  | .lossNone y A _ => .ok (.lossNone y A c)
+  | .loss y A f _ => .ok (.loss y A f c)
+  | .sqL2 y A w _ => .ok (.sqL2 y A w c)
+  | _ => .error .type
+
 /-! ### array arithmetic on arguments (same shapes required) -/
 
 def zipSame (op : α → α → α) (a b : List α) : Except Err (List α) :=
